@@ -1,5 +1,6 @@
 from __future__ import annotations
 
+import math
 import random
 import re
 import time
@@ -125,9 +126,9 @@ def wait_timestamp(params: ParametersT | None = None) -> int | None:
         return None
 
     if params.delay.next_execution_time is not None:
-        return int(params.delay.next_execution_time.timestamp())
+        return math.ceil(params.delay.next_execution_time.timestamp())
 
     if (computed := params.compute_next_execution_time) is not None:
-        return int(computed.timestamp())
+        return math.ceil(computed.timestamp())
 
     return None
